@@ -234,6 +234,30 @@ def pair(ctx: Any) -> List[Ob]:
                     out.append('UNMAP')
         return out
 
+    def eff(node: Any, evl: Any) -> List[Any]:  # noqa: F811  (extends the effect labels with RESCUE / READY)
+        out = []
+        for x in node.calls():
+            if call_name(x) == 'heappop':
+                out.append('POP')
+            if call_name(x) in ('append', 'add') and isinstance(x.func, ast.Attribute) and isinstance(x.func.value, ast.Name):
+                tgt = x.func.value.id
+                if tgt in rescue_lists:
+                    out.append('RESCUE')
+                elif tgt in ready_sets:
+                    out.append('READY')
+            if call_name(x) == 'schedule_rescue_query' and node.in_loop and any(isinstance(l, ast.While) for l in node.in_loop):
+                out.append('RESCUE')
+        if node.kind == 'stmt':
+            for y in walk_local_ordered(node.ast):
+                if isinstance(y, ast.Delete) and any(isinstance(t, ast.Subscript) and self_attr(t.value, me) == '_next_scheduled_for_alias' for t in y.targets):
+                    out.append('UNMAP')
+                if isinstance(y, ast.Call) and call_name(y) == 'pop' and isinstance(y.func, ast.Attribute) and self_attr(y.func.value, me) == '_next_scheduled_for_alias':
+                    out.append('UNMAP')
+        return out
+
+    # the list whose elements are later handed to schedule_rescue_query, and the set handed to async_send_ready_queries
+    rescue_lists = {norm(lp.iter) for lp in walk_local_ordered(proc.node) if isinstance(lp, ast.For) and any(isinstance(c, ast.Call) and call_name(c) == 'schedule_rescue_query' and c.args and norm(c.args[0]) == norm(lp.target) for c in ast.walk(lp))}
+    ready_sets = {norm(c.args[2]) for c in walk_local_ordered(proc.node) if isinstance(c, ast.Call) and call_name(c) == 'async_send_ready_queries' and len(c.args) >= 3}
     atoms = {k: False for k in done_atoms(ctx, proc)}
     live = dict(atoms)
     live[f'{me}._query_heap'] = ['q']
@@ -242,6 +266,7 @@ def pair(ctx: Any) -> List[Ob]:
     oc, _ = traces(ctx, proc, {**live, 'current_time_millis()': 1000.0, '._clock_resolution_millis': 1.0}, eff, loop_bound=1, for_iter=lambda n, e: False)
     got = {tuple(x for x in strip_ret(t)) for t in oc}
     obs.append(ob(R, proc, 'query = heappop(self._query_heap); del self._next_scheduled_for_alias[...]', 'a due, live query taken from the heap is removed from the schedule map', bool(got) and all(t.count('POP') == t.count('UNMAP') and t.count('POP') >= 1 for t in got), str(sorted(got))))
+    obs.append(ob(R, proc, 'ready_types.add(query.name); schedule_rescue.append(query)', 'every due, live query -- not only the first of its type -- is asked for and gets its next rescue query scheduled (rescue entries are per record and are cancelled per record)', bool(got) and all(t.count('POP') == t.count('RESCUE') == t.count('READY') for t in got), str(sorted(got))))
     canc = dict(atoms)
     canc[f'{me}._query_heap'] = ['q']
     canc['.cancelled'] = True
@@ -264,6 +289,12 @@ def pair(ctx: Any) -> List[Ob]:
     oc3, _ = fd.run_paths(prog, rf.module, rcfg, {'.get()': fd.Sym('current'), '.when_millis': -10.0**12, '.get_expiration_time()': 0.0, '._min_time_between_queries_millis': 10000}, lambda n, e: (['FLAG'] if n in flag_nodes else []) + (['UNMAP'] if n in unmap else []) + (['PUSH'] if n in sched else []))
     got3 = {strip_ret(t) for t in oc3}
     obs.append(ob(R, rf, 'current.cancelled = True; del map[...]; self._schedule_ptr_refresh(...)', 'a superseded schedule is cancelled and unmapped before the new one is pushed', bool(got3) and all(set(t) == {'FLAG', 'UNMAP', 'PUSH'} and t[-1] == 'PUSH' for t in got3), str(sorted(got3))))
+    # churn window: an existing schedule is kept only if the new refresh time is within one delay of it, on either side
+    for diff in (-25000.0, -10001.0, -10000.0, 0.0, 10000.0, 10001.0, 25000.0):
+        oc4, und4 = fd.run_paths(prog, rf.module, rcfg, {'.get()': fd.Sym('current'), '.when_millis': 1000000.0, '.get_expiration_time()': 1000000.0 + diff, '._min_time_between_queries_millis': 10000}, lambda n, e: (['PUSH'] if n in sched else []))
+        kept = {('PUSH' not in t) for t in oc4}
+        want = abs(diff) <= 10000
+        obs.append(ob(R, rf, f'new refresh time {diff:+.0f} ms from the scheduled one (delay 10 s)', f'the existing schedule is {"kept" if want else "replaced"} (a much earlier refresh time must not be ignored)', kept == {want} and not und4, f'kept on {kept}; undecided {und4}'))
     return obs
 
 
